@@ -6,7 +6,7 @@
    (M, N); bases B_r (M x a) and B_c (N x c) (eigenvectors or B-splines; a <> c and M <> N allowed);
    [cf] is the index-level configuration translated from the current source (gen/GenC20.v). *)
 From Coq Require Import ZArith List Bool Ring.
-From PB Require Import C20.Model C20.Proofs gen.GenC20 C20.GenOk.
+From PB Require Import C20.Model C20.Proofs C20.Layout gen.GenC20 C20.GenOk.
 Import ListNotations.
 Open Scope Z_scope.
 
@@ -16,6 +16,32 @@ Open Scope Z_scope.
 Theorem C20_source_cfg : cfg_ok gen_cfg_whittaker = true /\ cfg_ok gen_cfg_spline = true.
 Proof. exact gen_cfgs_ok. Qed.
 Print Assumptions C20_source_cfg.
+
+(* Memory layout.  The direct (num_eigens=None) branch flattens data and weights, solves the row-major
+   Kronecker system and reshapes back.  Every ravel / flatten / reshape call of pybaselines/two_d/*.py
+   (translated with its `order` argument on this run) uses the default order ... *)
+Theorem C20_source_flatten_orders : forallb order_ok gen_flatten_orders = true /\ gen_flatten_orders <> nil.
+Proof. exact gen_orders_ok. Qed.
+Print Assumptions C20_source_flatten_orders.
+
+(* ... which is row-major (Model.ravel2) whatever the memory layout of the caller's array
+   (C-contiguous, Fortran-contiguous / transposed view, negative strides, non-contiguous slice) ... *)
+Theorem C20_ravel_layout_independent : forall o : order, order_ok o = true ->
+  forall (l : layout) (M N k : Z), ravel_idx o l M N k = Some (row_major M N k).
+Proof. exact ravel_layout_independent. Qed.
+Print Assumptions C20_ravel_layout_independent.
+
+(* ... while every other order ('F', 'A', 'K') is not: witness on a Fortran-contiguous 2 x 3 array. *)
+Theorem C20_ravel_other_orders_refuted : forall o : order, order_ok o = false ->
+  exists (l : layout) (M N k : Z), 0 <= k < M * N /\ ravel_idx o l M N k <> Some (row_major M N k).
+Proof. exact ravel_other_orders_refuted. Qed.
+Print Assumptions C20_ravel_other_orders_refuted.
+
+(* row-major flatten followed by the row-major reshape(shape) is the identity (vec / unvec) *)
+Theorem C20_ravel_reshape_roundtrip : forall (R : ops) (N : Z) (A : mat R) (i j : Z),
+  0 <= j < N -> reshape2 R N (ravel2 R N A) i j = A i j.
+Proof. exact ravel_reshape_roundtrip. Qed.
+Print Assumptions C20_ravel_reshape_roundtrip.
 
 (* _make_btwb (face-splitting products, G_r' W G_c, reshape -> transpose [0,2,1,3] -> reshape as
    div/mod maps on C-order raveled data):
